@@ -152,8 +152,9 @@ chk('C02', 'exploration',
     'the one reference map; malformed results include falsy non-mappings, '
     'plain numbers equal to non-final statuses, unmergeable updates and '
     'SystemExit; nested sub-graphs, more than 100 simultaneously ready tasks '
-    'per worker, and the same backend and task objects reused for another '
-    'graph are part of the workload.',
+    'per worker, sub-graphs inside the soft graph, the same backend and task '
+    'objects reused for another graph, and runs with the loggers at DEBUG '
+    'level are part of the workload.',
     'schedules are sampled; non-final statuses returned by tasks are outside '
     'the statement',
     'runtime monitoring: execution counters + final status map vs executable '
